@@ -181,7 +181,32 @@ class ProvRDFSerializer(Serializer):
         return document
 
     def valid_identifier(self, value):
+        name = self.uri_to_name(self.document, value)
+        if isinstance(name, pm.QualifiedName):
+            return name
         return self.document.valid_qualified_name(value)
+
+    def uri_to_name(self, container, uri):
+        """
+        Turns a URI read from the graph into a qualified name in the scope of
+        the given document or bundle.
+
+        What rdflib hands over is always a full URI, never a prefixed name, so
+        it must not reach the model as a plain string: the model would first
+        try to read 'urn:x:y' or 'http://...' as prefix:local, and a document
+        may well declare a prefix that is also a URI scheme. Returns the string
+        unchanged if no declared namespace covers it (e.g. blank node ids).
+        """
+        uri = str(uri)
+        manager = container._namespaces
+        while manager is not None:
+            for namespace in manager.values():
+                if uri.startswith(namespace.uri):
+                    return container.valid_qualified_name(
+                        namespace[uri[len(namespace.uri) :]]
+                    )
+            manager = manager.parent
+        return uri
 
     def encode_rdf_representation(self, value):
         if isinstance(value, URIRef):
@@ -499,7 +524,7 @@ class ProvRDFSerializer(Serializer):
                         predicate_mapper=predicate_mapper,
                     )
                 else:
-                    bundle_id = str(graph.identifier)
+                    bundle_id = self.uri_to_name(document, graph.identifier)
                     bundle = document.bundle(bundle_id)
                     self.decode_container(
                         graph,
@@ -529,6 +554,10 @@ class ProvRDFSerializer(Serializer):
         for key, val in PROV_BASE_CLS.items():
             PROV_CLS_MAP[key.uri] = PROV_BASE_CLS[key]
         other_attributes = {}
+
+        def name(uri):
+            return self.uri_to_name(bundle, uri)
+
         for stmt in graph.triples((None, RDF.type, None)):
             id = str(stmt[0])
             obj = str(stmt[2])
@@ -585,14 +614,18 @@ class ProvRDFSerializer(Serializer):
                 continue
             if pred in relation_mapper:
                 if "alternateOf" in pred:
-                    getattr(bundle, relation_mapper[pred])(obj, id)
+                    getattr(bundle, relation_mapper[pred])(name(obj), name(id))
                 elif "mentionOf" in pred:
                     mentionBundle = None
                     for stmt in graph.triples(
                         (URIRef(id), URIRef(pm.PROV["asInBundle"].uri), None)
                     ):
                         mentionBundle = stmt[2]
-                    getattr(bundle, relation_mapper[pred])(id, str(obj), mentionBundle)
+                    getattr(bundle, relation_mapper[pred])(
+                        name(id),
+                        name(obj),
+                        name(mentionBundle) if mentionBundle is not None else None,
+                    )
                 elif "actedOnBehalfOf" in pred or "wasAssociatedWith" in pred:
                     qualifier = (
                         "qualified"
@@ -605,13 +638,13 @@ class ProvRDFSerializer(Serializer):
                     ):
                         qualifier_bnode = stmt[2]
                     if qualifier_bnode is None:
-                        getattr(bundle, relation_mapper[pred])(id, str(obj))
+                        getattr(bundle, relation_mapper[pred])(name(id), name(obj))
                     else:
                         fakeys = list(formal_attributes[str(qualifier_bnode)].keys())
-                        formal_attributes[str(qualifier_bnode)][fakeys[0]] = id
-                        formal_attributes[str(qualifier_bnode)][fakeys[1]] = str(obj)
+                        formal_attributes[str(qualifier_bnode)][fakeys[0]] = name(id)
+                        formal_attributes[str(qualifier_bnode)][fakeys[1]] = name(obj)
                 else:
-                    getattr(bundle, relation_mapper[pred])(id, str(obj))
+                    getattr(bundle, relation_mapper[pred])(name(id), name(obj))
             elif id in ids:
                 obj1 = self.decode_rdf_representation(obj, graph)
                 if obj is not None and obj1 is None:
@@ -641,13 +674,13 @@ class ProvRDFSerializer(Serializer):
                     if "qualified" not in str(pred_new) and "asInBundle" not in str(
                         pred_new
                     ):
-                        other_attributes[id].append((str(pred_new), obj1))
+                        other_attributes[id].append((name(pred_new), obj1))
             local_key = str(obj)
             if local_key in ids:
                 if "qualified" in pred:
                     formal_attributes[local_key][
                         list(formal_attributes[local_key].keys())[0]
-                    ] = id
+                    ] = name(id)
         for id in ids:
             attrs = None
             if id in other_attributes:
@@ -660,9 +693,11 @@ class ProvRDFSerializer(Serializer):
                 for subset in list(walk(items_to_walk)):
                     for key, value in subset.items():
                         formal_attributes[id][key] = value
-                    bundle.new_record(ids[id], id, formal_attributes[id], attrs)
+                    bundle.new_record(
+                        ids[id], name(id), formal_attributes[id], attrs
+                    )
             else:
-                bundle.new_record(ids[id], id, formal_attributes[id], attrs)
+                bundle.new_record(ids[id], name(id), formal_attributes[id], attrs)
             ids[id] = None
             if attrs is not None:
                 other_attributes[id] = []
